@@ -86,8 +86,22 @@ def oracle(scn, obs, ref, schedule):
         #      (resumable or not) end the call with RunEngineInterrupted or normally, never with another exception
         if failed and c["name"] in ("RE", "resume") and not schedule.get("faults") and scn.params.get("cbfail") is None:
             ref_ok = all(rc["exc"] is None for rc in ref.calls if rc["name"] != "probe")
-            if ref_ok and not isinstance(e, TransitionError):
-                kind = "non-resumable" if nonres else ("terminated" if accepted else "resumable")
+            halted_in_cleanup = "halting" in accepted and isinstance(e, RuntimeError) and "ignored GeneratorExit" in str(e)
+            # (a plan that yields clean-up messages when PlanHalt - a GeneratorExit - is thrown in fails by Python's own rule)
+            if ref_ok and not isinstance(e, TransitionError) and not halted_in_cleanup:
+                from bsv.props.C04 import _inflight_uncacheable
+
+                lost = _inflight_uncacheable(obs)
+                i_acc = next((j for j in range(chain_start, r) if tl[j][0] == "state" and tl[j][1] in ("aborting", "stopping", "halting")), None)
+                rewound = i_acc is not None and any(t[0] == "state" and t[1] in ("pausing", "suspending") for t in tl[chain_start:i_acc])
+                if lost:
+                    kind = f"inflight-uncacheable-{lost}"
+                elif nonres:
+                    kind = "non-resumable"
+                elif accepted:
+                    kind = "terminated-after-rewind" if rewound else "terminated"
+                else:
+                    kind = "resumable"
                 out.append((f"failure-without-fault:{type(e).__name__}:{kind}", f"{c['name']}() raised {type(e).__name__}({str(e)[:80]!r}) although nothing failed: requests only ({[t[1] for t in seg if t[0] == 'inject']})"))
         # ---- expected exit statuses for engine-closed runs
         allowed = set()
@@ -110,6 +124,13 @@ def oracle(scn, obs, ref, schedule):
             # abort while the engine is already stopping) still name a cause under the statement: either mapping is accepted
             for kind in issued:
                 allowed.add({"abort": "abort", "halt": "abort", "stop": "success"}[kind])
+            # likewise a pause / suspension REQUESTED in a non-resumable section of this chain (even when another
+            # request was accepted first and the state machine refused the move to 'aborting') names the cause 'abort'
+            for j in range(chain_start, r):
+                t = tl[j]
+                if (t[0] == "inject" and t[1].split(":")[0] in ("pause", "suspend")) or t[0] == "suspend_req":
+                    if engine.resumability_at(obs, j) != "yes":
+                        allowed.add("abort")
         plan_closed, engine_closed = _stops_by_origin(obs, chain_start, r)
         for doc in engine_closed:
             st = doc.get("exit_status")
